@@ -310,6 +310,33 @@ def run(ctx: common.Ctx):
   marks.append(('probes-held-suarez', _time.time()))
   ctx.notes.append('timing [s]: ' + ', '.join(f'{b[0]}={b[1] - a[1]:.1f}' for a, b in zip(marks, marks[1:])))
 
+  # DOMAIN STATEMENT (review C, C20 findings 1-2): the drag theorems need cos_lat != 0 at every node and the wind round
+  # trip.  On a grid WITH pole nodes (equiangular_with_poles: cos_lat = 0 at both ends) the real code divides by zero;
+  # recorded here on every run (never an alarm: such grids are outside the stated domain, and no probe draws them)
+  with np.errstate(all='ignore'):
+    try:
+      gp = sh.Grid(longitude_wavenumbers=4, total_wavenumbers=5, longitude_nodes=12, latitude_nodes=7,
+                   latitude_spacing='equiangular_with_poles')
+      cp = cs.CoordinateSystem(gp, sc.SigmaCoordinates.equidistant(3))
+      hp = hs.HeldSuarezForcing(cp, specs, np.full(3, 250.0))
+      lsg = np.asarray(gp.modal_axes[1])
+      vorp = ctx.rng.standard_normal(cp.modal_shape) * np.asarray(gp.mask) * (lsg < 3) * (lsg > 0) * 1e-3
+      stp = pe.State(vorticity=jnp.asarray(vorp), divergence=jnp.asarray(0 * vorp),
+                     temperature_variation=jnp.asarray(0 * vorp),
+                     log_surface_pressure=jnp.zeros((1,) + gp.modal_shape))
+      outp = np.asarray(hp.explicit_terms(stp).vorticity)
+      pole_note = dict(min_abs_cos_lat=float(np.abs(np.asarray(gp.cos_lat)).min()),
+                       drag_finite=bool(np.isfinite(outp).all()),
+                       drag_relerr_vs_minus_kv_vor=(float(np.abs(outp + np.asarray(hp.kv()) * vorp).max()
+                                                          / np.abs(np.asarray(hp.kv()) * vorp).max())
+                                                    if np.isfinite(outp).all() else None))
+    except Exception as e:  # pylint: disable=broad-except
+      pole_note = f'{type(e).__name__}: {str(e)[:200]}'
+  ctx.notes.append(dict(domain_statement='drag (T20.4) is claimed on pole-free grids (cos_lat != 0 at every node: '
+                        'validated on every probe grid, key hyp-pole-free) and for states whose top total wavenumber is '
+                        'clipped (hyp-wind-roundtrip); hypotheses Homogeneous / WindRoundTrip are sampled on the real '
+                        'grid, not proved for it', real_code_on_a_grid_with_pole_nodes=pole_note))
+
   if not ctx.quick:
     ctx.leanchecker(['DinoProofs.Properties.C20'])
   return ctx.finish(RULE, 'theorems are about the Lean model Dino.Forcing with sin/cos/exp/log/pow/floor/pi '
@@ -468,6 +495,14 @@ def probes_held_suarez(ctx, hs, pe, specs, sh, cs, sc, jnp, units):
       grid = _grid(sh, gname)
       coords = cs.CoordinateSystem(grid, sc.SigmaCoordinates(b))
       h = hs.HeldSuarezForcing(coords, specs, tref, **kw)
+      # side condition of the division by cos_lat**2 (nodalVelocityTendency_eq / drag_eq_neg_kv_smul), in the form
+      # of cosLat_ne_zero_of_poleFree: no pole node (|sin_lat| < 1), cos_lat**2 = 1 - sin_lat**2, cos_lat != 0
+      cl_, sl_ = np.asarray(grid.cos_lat, dtype=float), np.asarray(grid.nodal_axes[1], dtype=float)
+      ctx.expect(bool((np.abs(sl_) < 1).all() and (cl_ != 0).all()
+                      and np.abs(cl_**2 - (1 - sl_**2)).max() <= 4 * np.finfo(float).eps),
+                 'hyp-pole-free', 'the latitude nodes of a probe grid include a pole (cos_lat = 0) or cos_lat**2 != '
+                 f'1 - sin_lat**2: min cos_lat = {cl_.min()}', inp)
+      ctx.dist['hyp-pole-free-validated'] += 1
       sig, sb = np.asarray(h.sigma), float(h.sigma_b)
       kv = np.asarray(h.kv())
       kt = np.asarray(h.kt())
